@@ -11,7 +11,7 @@
 #include <stdarg.h>
 #include "hcommon.h"
 
-enum { PG_SPAWN, PG_ATTR, PG_DETACH, PG_MUTEX_STATIC, PG_COND, PG_BARRIER, PG_SPIN, PG_ONCE, PG_KEYS, PG_SELF, PG_EXIT, PG_MIX, PG_KEYS_ALL, PG_TRYLOCK, PG_RETCODES, PG_KEYS_MANY, PG_SLEEPS, PG_KEYS_SPARSE, PG_N };
+enum { PG_SPAWN, PG_ATTR, PG_DETACH, PG_MUTEX_STATIC, PG_COND, PG_BARRIER, PG_SPIN, PG_ONCE, PG_KEYS, PG_SELF, PG_EXIT, PG_MIX, PG_KEYS_ALL, PG_TRYLOCK, PG_RETCODES, PG_KEYS_MANY, PG_SLEEPS, PG_KEYS_SPARSE, PG_KEYS_CLEAR, PG_N };
 static const char * const pg_name[] = { "spawn tree (NULL attr)", "spawn with attribute objects (default-init, stack size)", "detached threads (attribute and pthread_detach)",
   "counter under a PTHREAD_MUTEX_INITIALIZER mutex first used by all threads at once", "condition-variable hand-off (static initialisers)", "barrier phases",
   "spin-lock counter", "pthread_once", "keys with destructors", "pthread_self / pthread_equal", "pthread_exit from nested frames", "mixed: keys + mutex + yield + usleep(0)", "keys with destructors, every thread stores a value under every key", "trylock / timedlock on a mutex held by the creator", "return codes of init/destroy/attr/yield/sleep calls", "18 keys without destructors: a thread reads NULL under every key it has not stored under, also after storing under the neighbouring keys (4 threads one after the other, then concurrent ones)", "threads measure their own usleep(400000) and nanosleep(0.999999999 s): neither returns early", "70 keys, five destructor functions, every thread stores under a sparse set of keys (20, 37, 66, ...): each destructor sees exactly its own keys' values" };
@@ -102,6 +102,15 @@ static void * t_sparse(void * a) {
   long s = 0; for (int j = 0; j < 4; j++) { int k = sets[me % 3][j]; if (k >= 0) s += (long)pthread_getspecific(spk[k]); }
   return (void *)s;
 }
+static void * t_keys_clear(void * a) {
+  long me = (long)a;
+  pthread_setspecific(key1, (void *)(100 + me)); pthread_setspecific(key2, (void *)(1000 + me));
+  sched_yield();
+  long seen = (long)pthread_getspecific(key1) + (long)pthread_getspecific(key2);
+  pthread_setspecific((me & 1) ? key1 : key2, NULL);          /* cleared: its destructor must not run for this thread */
+  long after = (long)pthread_getspecific(key1) + (long)pthread_getspecific(key2);
+  return (void *)(seen * 10000 + after);
+}
 static int in_reference_mode;
 static long long now_ns(void) { struct timespec t; if (in_reference_mode) clock_gettime(CLOCK_REALTIME, &t); else mv_clock_read(&t); return (long long)t.tv_sec * 1000000000LL + t.tv_nsec; }
 static void * t_sleeps(void * a) {
@@ -169,6 +178,9 @@ static void program(int pg, int n, char * log, size_t logn) {
     for (long i = 0; i < n; i++) pthread_create(&th[i], NULL, t_sparse, (void *)i); for (int i = 0; i < n; i++) { pthread_join(th[i], &r); logf_("s%d=%ld;", i, (long)r); }
     logf_("kc=%d;", kc); for (int d = 0; d < 5; d++) logf_("d%d=%ld/%ld;", d, sp_cnt[d], sp_sum[d]);
     for (int j = 0; j < NSP; j++) pthread_key_delete(spk[j]); break; }
+  case PG_KEYS_CLEAR: pthread_key_create(&key1, dtor); pthread_key_create(&key2, dtor);
+    for (long i = 0; i < n; i++) pthread_create(&th[i], NULL, t_keys_clear, (void *)i); for (int i = 0; i < n; i++) { pthread_join(th[i], &r); logf_("k%d=%ld;", i, (long)r); }
+    logf_("dtor_calls=%ld;dtor_sum=%ld;", dtor_calls, dtor_sum); pthread_key_delete(key1); pthread_key_delete(key2); break;
   case PG_RETCODES: {
     pthread_attr_t a; size_t ss = 0; int ds = -1; pthread_cond_t c; pthread_barrier_t b; pthread_key_t k; pthread_spinlock_t sp; pthread_mutexattr_t ma; int ty = -1;
     logf_("ai=%d;", pthread_attr_init(&a)); logf_("ass=%d;", pthread_attr_setstacksize(&a, 262144)); { int q = pthread_attr_getstacksize(&a, &ss); logf_("ags=%d/%zu;", q, ss); }
